@@ -128,6 +128,11 @@ func DrawSpec(t *kernel.Tape, cold bool) *Spec {
 		s.Msgs = append(s.Msgs, t.Bytes("fixture", "msg", []int{0, 32, 45}[t.Choose("fixture", "msglen", 3)]))
 		s.DSTs = append(s.DSTs, append([]byte("QUUX-V01-CS02-with-secp256k1_XMD:SHA-256_SSWU_RO_"), byte(i)))
 	}
+	// two different oversize (> 255 bytes) domain separation tags: RFC 9380
+	// hashes those down first, a separate code path
+	for i := 0; i < 2; i++ {
+		s.DSTs = append(s.DSTs, append(bytes.Repeat([]byte{byte('a' + i)}, 256+t.Choose("fixture", "longdst", 64)), byte(i)))
+	}
 	s.OptEnc = t.Choose("fixture", "opt.enc", 3)
 	s.OptSelf = t.Bool("fixture", "opt.self")
 	s.OptRejMal = t.Bool("fixture", "opt.rejmal")
